@@ -422,15 +422,19 @@ func (in *Interp) assert(c *Term, label string) {
 		in.hasUnknown = true
 		in.res.UnknownAsserts++
 		in.res.noteInconclusive("assert " + label + ": solver unknown")
-		in.assume(c)
-		return
+	default:
+		if in.mergeDepth > 0 {
+			in.unsupported("assert inside merged callee")
+		}
+		in.reportViolation(label, "assertion can fail"+in.where(), neg)
 	}
-	if in.mergeDepth > 0 {
-		in.unsupported("assert inside merged callee")
+	// Continue under the assumption that the assertion held, to look for further, different
+	// violations. This must not consume a decision slot: whether we get here depends on solver
+	// answers (timeouts), and decision prefixes have to replay identically on every worker.
+	if c.IsFalse() || in.feasible(c) == Unsat {
+		panic(pathEnd{kind: "stop"})
 	}
-	in.reportViolation(label, "assertion can fail"+in.where(), neg)
-	// continue under the assumption that it held, to look for further, different violations
-	in.assume(c)
+	in.addPC(c, true)
 }
 
 // ---------------- frames / execution ----------------
